@@ -33,22 +33,22 @@ type nopClient struct{ rpc.ChordClient }
 
 // Item of a layout, in ascending identifier order.  Exactly one of N (node name) / K (key name).
 type Item struct {
-	N  string `json:"n,omitempty"`
-	K  string `json:"k,omitempty"`
-	ID uint64 `json:"id,omitempty"` // optional explicit node id
-	Zero bool `json:"zero,omitempty"` // explicit node id 0
+	N    string `json:"n,omitempty"`
+	K    string `json:"k,omitempty"`
+	ID   uint64 `json:"id,omitempty"`   // optional explicit node id
+	Zero bool   `json:"zero,omitempty"` // explicit node id 0
 }
 
 type Ring struct {
-	Layout []Item
-	Nodes  map[string]*implchord.LocalNode
-	NodeID map[string]uint64
-	Keys   map[string][]byte
-	KeyID  map[string]uint64
-	Rank   map[uint64]int // id -> rank (index in layout)
-	Logger *zap.Logger
-	MkKV   func(name string) chord.KVProvider
-	Client rpc.ChordClient
+	Layout   []Item
+	Nodes    map[string]*implchord.LocalNode
+	NodeID   map[string]uint64
+	Keys     map[string][]byte
+	KeyID    map[string]uint64
+	Rank     map[uint64]int // id -> rank (index in layout)
+	Logger   *zap.Logger
+	MkKV     func(name string) chord.KVProvider
+	Client   rpc.ChordClient
 	Interval time.Duration
 }
 
@@ -199,15 +199,15 @@ func (r *Ring) rk(v chord.VNode) int {
 }
 
 type NodeSnap struct {
-	St    string         `json:"st"`
-	Pred  int            `json:"pred"`
-	Succ  []int          `json:"succ"`
-	Sur   int            `json:"sur"`
-	Store map[string]string `json:"store"`           // key rank -> simple value
+	St    string              `json:"st"`
+	Pred  int                 `json:"pred"`
+	Succ  []int               `json:"succ"`
+	Sur   int                 `json:"sur"`
+	Store map[string]string   `json:"store"`          // key rank -> simple value
 	Kids  map[string][]string `json:"kids,omitempty"` // key rank -> sorted children
-	Fing  []int          `json:"fing,omitempty"`
-	FS    []int          `json:"fs"` // distinct ranks named by the finger table
-	Hist  []string       `json:"hist,omitempty"`
+	Fing  []int               `json:"fing,omitempty"`
+	FS    []int               `json:"fs"` // distinct ranks named by the finger table
+	Hist  []string            `json:"hist,omitempty"`
 }
 
 // Snapshot projects every created node.  withFingers adds the 48 finger ranks.
